@@ -56,10 +56,6 @@ type Queue[Q Queueable] struct {
 	nilQ        Q
 }
 
-// DefaultCacheSize is the default number of Queueable elements above the current height
-// which are stored in the queue.
-const DefaultCacheSize = 2000
-
 func (bq *Queue[Q]) indexToPosition(i uint32) int {
 	return int(i) % bq.cacheSize
 }
